@@ -799,7 +799,7 @@ class Interp(object):
                 if defaults is not None and name in defaults:
                     loc[name] = defaults[name]
                 else:
-                    loc[name] = self.ev(ctx, defaults_frame, def_exprs[name])
+                    loc[name] = self.default_value(ctx, fr, defaults_frame, def_exprs[name], name)
                 continue
             self.raise_exc(ctx, 'TypeError', "missing required argument '%s'" % name, node)
         if a.kwarg is not None:
@@ -814,6 +814,38 @@ class Interp(object):
             if star is not None:
                 self.models.star_must_be_empty(self, ctx, star, node)
         return loc
+
+    def default_value(self, ctx, fr, defaults_frame, expr, name):
+        """Value of a parameter default.  Python evaluates a default ONCE, when the def statement
+        runs: a mutable default ([], {}, set(), ...) of a module- or class-level function is one
+        object shared by every call (and every request), whose content earlier calls may have
+        changed.  It is modelled as a shared object of that kind with arbitrary content."""
+        if fr.spec:
+            return self.ev(ctx, defaults_frame, expr)
+        kind = None
+        if isinstance(expr, (ast.List, ast.ListComp)):
+            kind = 'list'
+        elif isinstance(expr, (ast.Dict, ast.DictComp)):
+            kind = 'dict'
+        elif isinstance(expr, (ast.Set, ast.SetComp)):
+            kind = 'set'
+        elif isinstance(expr, ast.Call) and isinstance(expr.func, ast.Name) and expr.func.id in ('list', 'dict', 'set', 'defaultdict', 'OrderedDict', 'deque'):
+            kind = {'list': 'list', 'deque': 'list', 'set': 'set'}.get(expr.func.id, 'dict')
+        if kind is None:
+            return self.ev(ctx, defaults_frame, expr)
+        nm = 'shared_default_%s' % name
+        if kind == 'list':
+            ref = ctx.alloc(HList(z=Z.fresh(nm, Z.SeqSort(Z.Obj)), et=TObj()))
+        elif kind == 'set':
+            ref = ctx.alloc(HSet(Z.fresh(nm, Z.SetSort(Z.Obj)), TObj()))
+        else:
+            ref = ctx.alloc(HDict(dom=Z.fresh(nm + '_dom', Z.SetSort(Z.Obj)), arr=Z.fresh(nm + '_arr', z3.ArraySort(Z.Obj, Z.Obj)),
+                                  kt=TObj(), vt=TObj()))
+        if not hasattr(ctx, 'shared_rids'):
+            ctx.shared_rids = set()
+        ctx.shared_rids.add(ref.rid)
+        ctx.notes.append('mutable default of parameter %r: one object shared by all calls (arbitrary content)' % name)
+        return ref
 
     def call_inline(self, ctx, fr, fv, args, kwargs, node, star=None, selfv=None):
         if ctx.depth >= MAX_INLINE_DEPTH:
